@@ -9,8 +9,9 @@ cp /verif/known_findings.json /verif/properties.jsonl /tmp/cov/root/ 2>/dev/null
 RUSTFLAGS="--cfg tokio_unstable -C instrument-coverage" cargo +nightly build --release --offline 2>&1 | tail -3
 BIN=/tmp/cov/sim/target/release/sim
 rm -f /tmp/cov/prof/*.profraw
+export VERIF_THREADS=${VERIF_THREADS:-4}
 for p in C01 C02 C03 C04 C05 C06 C07 C08 C09 C10 C11 C12 C13 C14 C15 C16 C17 C18; do
-  $BIN run --property $p --tier quick --seed 0 --scale ${SCALE:-0.03} | tail -1
+  $BIN run --property $p --tier quick --seed 0 --scale ${SCALE:-0.004} | tail -1
 done
 T=$(dirname $(rustup +nightly which rustc))/../lib/rustlib/x86_64-unknown-linux-gnu/bin
 $T/llvm-profdata merge -sparse /tmp/cov/prof/*.profraw -o /tmp/cov/sim.profdata
